@@ -7,10 +7,13 @@ import (
 	"bytes"
 	"encoding/json"
 	"fmt"
+	"github.com/dtn7/dtn7-go/pkg/cla"
+	"github.com/dtn7/dtn7-go/pkg/storage"
 	"io"
 	"os"
 	"path/filepath"
 	"sort"
+	"strings"
 	"testing"
 	"time"
 
@@ -245,5 +248,66 @@ func TestVerifC20Dtlsr(t *testing.T) {
 	vhStat("update_sequences", nupd)
 	vhStat("routes_checked", nroutes)
 	vhStat("cases_conforming", ok)
+	vhDone()
+}
+
+// TestVerifC20Links: several convergence layers may lead to one node (a neighbour reached over MTCP and TCPCLv4). The selection of
+// the peers for a replicated bundle (epidemic, DTLSR broadcasts: filterCLAs) is recorded for every small set of links and every set
+// of already served nodes, and judged by Dtlsr!SelectionProblems: every node not served yet exactly once, no served node again.
+func TestVerifC20Links(t *testing.T) {
+	log.SetOutput(io.Discard)
+	f, err := os.Create(os.Getenv("VERIF_REC"))
+	if err != nil {
+		t.Fatal(err)
+	}
+	defer f.Close()
+	nodes := []string{"a", "b", "c"}
+	n := 0
+	// links: up to 4 links, each to one of the three nodes; sent: any subset of the nodes
+	for code := 0; code < 3*3*3*3*2*2*2; code++ {
+		x := code
+		var links []string
+		nl := 1 + (x % 4)
+		y := code / 4
+		for i := 0; i < nl; i++ {
+			links = append(links, nodes[y%3])
+			y /= 3
+		}
+		sentMask := (code / 7) % 8
+		var sent []bpv7.EndpointID
+		var sentNames []string
+		for i, nd := range nodes {
+			if sentMask&(1<<uint(i)) != 0 {
+				sent = append(sent, vdEid(nd))
+				sentNames = append(sentNames, nd)
+			}
+		}
+		var clas []cla.ConvergenceSender
+		for i, nd := range links {
+			clas = append(clas, &vcPeer{name: fmt.Sprintf("%s#%d", nd, i), eid: vdEid(nd)})
+		}
+		bi := storage.BundleItem{Properties: map[string]interface{}{"routing/dtlsr/sent": sent}}
+		chosen, after := filterCLAs(bi, clas, "dtlsr")
+		var chosenNodes, afterNodes []string
+		for _, cs := range chosen {
+			chosenNodes = append(chosenNodes, strings.TrimSuffix(strings.TrimPrefix(cs.GetPeerEndpointID().String(), "dtn://"), "/"))
+		}
+		for _, e := range after {
+			afterNodes = append(afterNodes, strings.TrimSuffix(strings.TrimPrefix(e.String(), "dtn://"), "/"))
+		}
+		if sentNames == nil {
+			sentNames = []string{}
+		}
+		if chosenNodes == nil {
+			chosenNodes = []string{}
+		}
+		if afterNodes == nil {
+			afterNodes = []string{}
+		}
+		b, _ := json.Marshal(vhRec{"t": "selection", "links": links, "sent": sentNames, "chosen": chosenNodes, "after": afterNodes})
+		f.Write(append(b, '\n'))
+		n++
+	}
+	vhStat("selections", n)
 	vhDone()
 }
